@@ -687,6 +687,10 @@ func checkC07(w *World, r *Report) {
 	r.Try(func() { ruleLifetimeSource(w, r, "R07.8") })
 	r.Rule("R07.9", 3, "the lifetime Build validated is the lifetime resolution uses: a registered descriptor is never changed in place")
 	r.Try(func() { ruleDescriptorImmutable(w, r, "R07.9") })
+	r.Rule("R07.11", 1, "the registrations validated are the registrations the provider serves: validation and the registry snapshot happen in one critical section of the collection")
+	r.Try(func() { ruleBuildOneCriticalSection(w, r, "R07.11") })
+	r.Rule("R07.10", 3, "what lifetime validation walks (services and groups) and what Build constructs (the descriptor list) stay in step: every writer of a view writes the others, a removal drops exactly the descriptor it found")
+	r.Try(func() { reexport(w, r, "R07.10", func(sub *Report) { checkC17(w, sub) }, "R17.1", "R17.8") })
 	r.Rule("R07.4", 2, "group dependencies are checked against every member of the group (group-keyed lookup in the groups view); plain and keyed dependencies against the table entry for exactly (Type, Key)")
 	r.Rule("R07.5", 2, "the conflict is raised exactly when the dependency's lifetime is Scoped, as a LifetimeConflictError")
 	r.Rule("R07.6", 3, "every descriptor created for a multi-output registration copies Lifetime, Constructor and Dependencies from the base descriptor")
@@ -1115,6 +1119,8 @@ func checkC08(w *World, r *Report) {
 	ruleFieldFilters(w, r, "R08.5")
 	r.Rule("R08.6", 6, "the graph has one edge per declared dependency (verbatim getters): a set is not rejected for a cycle the dependency lists do not contain")
 	r.Try(func() { ruleGraphSeesAllDependencies(w, r, "R08.6") })
+	r.Rule("R08.14", 1, "the set Build accepted is the set the provider serves: validation and the registry snapshot happen in one critical section of the collection")
+	r.Try(func() { ruleBuildOneCriticalSection(w, r, "R08.14") })
 	r.Rule("R08.12", 3, "the registrations Build validates are the registrations resolution can reach: every writer of the services / groups views keeps the descriptor list in step, and a removal drops exactly the descriptor it found")
 	r.Try(func() { reexport(w, r, "R08.12", func(sub *Report) { checkC17(w, sub) }, "R17.1", "R17.8") })
 	r.Rule("R08.13", 3, "what Build validated is what is resolved: a registered descriptor is never changed in place (a registration swapped under its key is not re-checked for presence of its dependencies)")
